@@ -469,7 +469,8 @@ def _lint(ctx, prop):
         cp, ncp = lint.rule_CP1(ctx, files)
         nb, nnb = lint.rule_NB1(ctx, files)
         zq, nzq = lint.rule_ZQ1(ctx, files)
-        out += [sw, ov, n1, d3, cp, nb, zq]
+        prt, nprt = lint.rule_PRT1(ctx, files)
+        out += [sw, ov, n1, d3, cp, nb, zq, prt]
     return out
 
 
